@@ -5,6 +5,7 @@ go 1.23
 toolchain go1.23.5
 
 require (
+	github.com/pkg/errors v0.9.1
 	github.com/rs/xid v1.6.0
 	github.com/rs/zerolog v0.0.0
 	pgregory.net/rapid v1.3.0
